@@ -1095,7 +1095,40 @@ func isBasic(t types.Type) bool {
 
 func constInt(v ssa.Value) (int64, bool) {
 	c, ok := v.(*ssa.Const)
-	if !ok || c.Value == nil || c.Value.Kind() != constant.Int {
+	if !ok {
+		// a field of the one entry of a frozen package-level table: `ft, ok := table[id]; ... ft.len`
+		if fv, isF := v.(*ssa.Field); isF {
+			if e, okE := singleEntryOf(fv.X); okE && e.k == kStruct {
+				if k, isInt := e.flds[fv.Field].Int(); isInt {
+					return k, true
+				}
+			}
+		}
+		// the same through the local the entry was spilled into
+		if ld, isLd := v.(*ssa.UnOp); isLd && ld.Op == token.MUL {
+			if fa, isFA := ld.X.(*ssa.FieldAddr); isFA {
+				if al, isAl := fa.X.(*ssa.Alloc); isAl && al.Referrers() != nil {
+					var src ssa.Value
+					n := 0
+					for _, ref := range *al.Referrers() {
+						if st, isSt := ref.(*ssa.Store); isSt && st.Addr == ssa.Value(al) {
+							src = st.Val
+							n++
+						}
+					}
+					if n == 1 {
+						if e, okE := singleEntryOf(src); okE && e.k == kStruct {
+							if k, isInt := e.flds[fa.Field].Int(); isInt {
+								return k, true
+							}
+						}
+					}
+				}
+			}
+		}
+		return 0, false
+	}
+	if c.Value == nil || c.Value.Kind() != constant.Int {
 		return 0, false
 	}
 	if i, ok := constant.Int64Val(c.Value); ok {
